@@ -413,6 +413,17 @@ pub fn cache_async(attr: TokenStream, item: TokenStream) -> TokenStream {
         });
     };
 
+    // verification hook (feature "verif" only): the generated `parking_lot::` paths resolve
+    // to the observable lock types
+    let verif_lock_shim = if cfg!(feature = "verif") {
+        quote! {
+            #[allow(unused_imports)]
+            use ::cachelito_core::verif_sync as parking_lot;
+        }
+    } else {
+        quote! {}
+    };
+
     // verification hook (feature "verif" only): expose the storage
     let verif_probe = if cfg!(feature = "verif") {
         quote! {
@@ -422,6 +433,7 @@ pub fn cache_async(attr: TokenStream, item: TokenStream) -> TokenStream {
                     let mut o = #order_ident.lock();
                     cachelito_core::verif::probe_async(&*#cache_ident, &mut o, cmd);
                 });
+                cachelito_core::verif::register_lock(stringify!(#cache_ident), "O", cachelito_core::verif_sync::mutex_id(&*#order_ident));
             });
         }
     } else {
@@ -431,6 +443,7 @@ pub fn cache_async(attr: TokenStream, item: TokenStream) -> TokenStream {
     // Generate final expanded code
     let expanded = quote! {
         #vis #sig {
+            #verif_lock_shim
             use std::collections::VecDeque;
 
             // DashMap stores: (value, timestamp, frequency)
